@@ -297,14 +297,29 @@ def _get_schema_or_none(
 
 
 def _default(f_type: Type, f_value: Any, config_cls: Type[BaseConfig]) -> Any:
-    @dataclass
-    class CC(DataClassJSONMixin):
-        x: f_type = f_value  # type: ignore
+    # the helper field must not have a default of its own (a mutable one is
+    # rejected by dataclasses, and omit_default would drop the key); only a
+    # None default is kept because it makes the field nullable
+    if f_value is None:
 
-        class Config(config_cls):  # type: ignore
-            pass
+        @dataclass
+        class CC(DataClassJSONMixin):
+            x: f_type = None  # type: ignore
 
-    return CC(f_value).to_dict()["x"]
+            class Config(config_cls):  # type: ignore
+                pass
+
+    else:
+
+        @dataclass
+        class CC(DataClassJSONMixin):  # type: ignore
+            x: f_type  # type: ignore
+
+            class Config(config_cls):  # type: ignore
+                pass
+
+    # with omit_none / omit_default in effect a None value is not emitted
+    return CC(f_value).to_dict().get("x")
 
 
 Registry = InstanceSchemaCreatorRegistry()
